@@ -100,9 +100,19 @@ def make(case):
         ub = np.full(n, np.inf)
         for i in range(n):
             mode = str(rng.choice(["inside", "cut_low", "cut_high", "free",
-                                   "half"]))
+                                   "half", "near_far_side"]))
             w = float(rng.uniform(0.5, 3))
-            if mode == "inside":
+            if mode == "near_far_side":
+                # a side of width in [1, 2) (between one and two initial
+                # radii) with the minimiser inside, close to one bound; x0
+                # will often sit outside or next to the opposite bound
+                w = float(rng.uniform(1.0, 2.0))
+                t = float(rng.uniform(0.02, 0.12))
+                if rng.random() < 0.5:
+                    lb[i], ub[i] = xu[i] - (1 - t) * w, xu[i] + t * w
+                else:
+                    lb[i], ub[i] = xu[i] - t * w, xu[i] + (1 - t) * w
+            elif mode == "inside":
                 lb[i], ub[i] = xu[i] - w, xu[i] + w
             elif mode == "cut_low":      # box above the unconstrained centre
                 lb[i], ub[i] = xu[i] + 0.3 * w, xu[i] + 0.3 * w + w
